@@ -729,7 +729,7 @@ func Regex(ctx *context.Context, left, right value.Value) (value.Value, error) {
 					fmt.Errorf("failed to compile regular expression from string %s", rv.Value),
 				)
 			}
-			if matches := re.FindStringSubmatch(lv.Value); len(matches) > 0 {
+			if matches := findSubmatch(ctx, re, lv.Value); len(matches) > 0 {
 				// Important: regex matched group variables are reset if matching is succeeded
 				// see: https://fiddle.fastly.dev/fiddle/3e5320ef
 				ctx.RegexMatchedValues = make(map[string]*value.String)
@@ -751,7 +751,7 @@ func Regex(ctx *context.Context, left, right value.Value) (value.Value, error) {
 					fmt.Errorf("failed to compile regular expression from REGEX %s", rv.Value),
 				)
 			}
-			if matches := re.FindStringSubmatch(lv.Value); len(matches) > 0 {
+			if matches := findSubmatch(ctx, re, lv.Value); len(matches) > 0 {
 				ctx.RegexMatchedValues = make(map[string]*value.String)
 				for j, m := range matches {
 					ctx.RegexMatchedValues[fmt.Sprint(j)] = &value.String{Value: m}
@@ -978,4 +978,16 @@ func TimeCalculation(left, right value.Value, operator string) (value.Value, err
 		return value.NewTime(lv.Value.Add(-rv.Value)), nil
 	}
 	return value.NewTime(lv.Value.Add(rv.Value)), nil
+}
+
+// findSubmatch runs the match. PCRE gives up on a pattern that backtracks beyond its match limit
+// and the binding panics then. On Fastly such a match fails and fastly.error is set to EREGRECUR.
+func findSubmatch(ctx *context.Context, re *pcre.Regexp, s string) (matches []string) {
+	defer func() {
+		if recover() != nil {
+			ctx.FastlyError = &value.String{Value: "EREGRECUR"}
+			matches = nil
+		}
+	}()
+	return re.FindStringSubmatch(s)
 }
